@@ -352,9 +352,10 @@ func (a *effAnalysis) returnsFresh(fn *ssa.Function) bool {
 }
 
 // external summaries: by full name of the (origin) function.
-//   "pure"         no effect
-//   "w0","w1"      writes the memory of argument 0/1 (receiver is 0)
-//   "io"           performs I/O on argument 0
+//
+//	"pure"         no effect
+//	"w0","w1"      writes the memory of argument 0/1 (receiver is 0)
+//	"io"           performs I/O on argument 0
 var extSummary = map[string]string{
 	"fmt.Sprintf": "pure", "fmt.Sprint": "pure", "fmt.Sprintln": "pure", "fmt.Errorf": "pure",
 	"errors.New": "pure", "errors.Is": "pure", "errors.As": "w1",
